@@ -226,7 +226,7 @@ func (m *MonC04) Genesis(w *World) {
 func (m *MonC04) AfterTx(w *World, b *BlockCtx, tm *TxMeta, r abci.ResponseDeliverTx) {
 	key := string(tm.Bytes)
 	sender, nonce, chainOK, known := tm.Sender, tm.Nonce, tm.ChainOK, !tm.Garbage && !tm.Malleated
-	if !known || tm.Op.SM == 4 {
+	if !known || tm.SigMode == 4 {
 		// bytes the harness did not sign itself: read the signed fields back with the repo's decoder
 		tx, err := txDecoder.DecodeFromBytes(tm.Bytes)
 		if err != nil {
